@@ -91,7 +91,7 @@ package mqtt
 //@        evArg[chan *pktPubRec]("mapstore:map<uint16,chan *pktPubRec>", 0, 2) == evArg[chan *pktPubRec]("select", 0, 2) && fresh(evArg[chan *pktPubRec]("select", 0, 2)) &&
 //@        evIndex("mapstore:map<uint16,chan *pktPubRec>", 0) < evIndex("(*BaseClient).write", 0)
 //@   ensures[C07,C11] nil_only_acked: result == nil && qos0 > QoS0 ==> evCount("select") == 1 && evRet[int]("select", 0, 0) == 2
-//@   ensures[C11] waitset: evCount("select") == 1 ==> evArg[chan struct{}]("select", 0, 0) == c.connClosed &&
+//@   ensures[C11] waitset: evCount("select") == 1 ==> evRet[int]("select", 0, 0) >= 0 && evArg[chan struct{}]("select", 0, 0) == c.connClosed &&
 //@        evArg[<-chan struct{}]("select", 0, 1) == evRet[<-chan struct{}]("context.Context.Done", 0, 0) && evArg[context.Context]("context.Context.Done", 0, 0) == ctx
 //@   ensures[C11] no_bare_block: evCount("recv") == 0 && evCount("send") == 0
 //@   ensures[C11,C19] cancel_cause: evCount("select") == 1 && evRet[int]("select", 0, 0) == 1 && isRetryErr(result) ==>
@@ -127,7 +127,7 @@ package mqtt
 //@        evCount("mapstore:map<uint16,chan *pktPubComp>") == 1 && evArg[uint16]("mapstore:map<uint16,chan *pktPubComp>", 0, 1) == message.ID &&
 //@        evArg[chan *pktPubComp]("mapstore:map<uint16,chan *pktPubComp>", 0, 2) == evArg[chan *pktPubComp]("select", 0, 2) && fresh(evArg[chan *pktPubComp]("select", 0, 2)) &&
 //@        evIndex("mapstore:map<uint16,chan *pktPubComp>", 0) < evIndex("(*BaseClient).write", 0) && evIndex("(*BaseClient).write", 0) < evIndex("select", 0)
-//@   ensures[C11] waitset: evCount("select") == 1 ==> evArg[chan struct{}]("select", 0, 0) == cli.connClosed &&
+//@   ensures[C11] waitset: evCount("select") == 1 ==> evRet[int]("select", 0, 0) >= 0 && evArg[chan struct{}]("select", 0, 0) == cli.connClosed &&
 //@        evArg[<-chan struct{}]("select", 0, 1) == evRet[<-chan struct{}]("context.Context.Done", 0, 0) && evArg[context.Context]("context.Context.Done", 0, 0) == ctx
 //@   ensures[C11,C19] cancel_cause: evCount("select") == 1 && evRet[int]("select", 0, 0) == 1 && isRetryErr(result) ==>
 //@        evCount("context.Context.Err") == 1 && evArg[context.Context]("context.Context.Err", 0, 0) == ctx &&
@@ -163,7 +163,7 @@ package mqtt
 //@        forall(0, n0, func(j int) bool { return result0[j].QoS == QoS(evRet[*pktSubAck]("select", 0, 4).Codes[j]) }) && sameSlice(result0, subs)
 //@   ensures[C01,C19] interrupted: sig0 != nil && result1 != nil && result1 != io.EOF && !(evCount("select") == 1 && evRet[int]("select", 0, 0) == 2) ==> isRetryErr(result1)
 //@   ensures[C01,C19] handle: isRetryErr(result1) ==> closureIs(retryOf(result1), "subscribeImpl$1") && sameSlice(*closureVar[*[]Subscription](retryOf(result1), "subscribeImpl$1", 0), subs)
-//@   ensures[C11] waitset: evCount("select") == 1 ==> evArg[chan struct{}]("select", 0, 0) == c.connClosed &&
+//@   ensures[C11] waitset: evCount("select") == 1 ==> evRet[int]("select", 0, 0) >= 0 && evArg[chan struct{}]("select", 0, 0) == c.connClosed &&
 //@        evArg[<-chan struct{}]("select", 0, 1) == evRet[<-chan struct{}]("context.Context.Done", 0, 0) && evArg[context.Context]("context.Context.Done", 0, 0) == ctx
 //@   ensures[C11] no_bare_block: evCount("recv") == 0 && evCount("send") == 0
 //@   ensures[C11,C19] cancel_cause: evCount("select") == 1 && evRet[int]("select", 0, 0) == 1 && isRetryErr(result1) ==>
@@ -200,7 +200,7 @@ package mqtt
 //@        evIndex("(*BaseClient).write", 0) < evIndex("select", 0)
 //@   ensures[C01,C19] interrupted: sig0 != nil && result != nil && result != io.EOF ==> isRetryErr(result)
 //@   ensures[C01,C19] handle: isRetryErr(result) ==> closureIs(retryOf(result), "unsubscribeImpl$1") && sameSlice(*closureVar[*[]string](retryOf(result), "unsubscribeImpl$1", 0), subs)
-//@   ensures[C11] waitset: evCount("select") == 1 ==> evArg[chan struct{}]("select", 0, 0) == c.connClosed &&
+//@   ensures[C11] waitset: evCount("select") == 1 ==> evRet[int]("select", 0, 0) >= 0 && evArg[chan struct{}]("select", 0, 0) == c.connClosed &&
 //@        evArg[<-chan struct{}]("select", 0, 1) == evRet[<-chan struct{}]("context.Context.Done", 0, 0) && evArg[context.Context]("context.Context.Done", 0, 0) == ctx
 //@   ensures[C11] no_bare_block: evCount("recv") == 0 && evCount("send") == 0
 //@   ensures[C11,C19] cancel_cause: evCount("select") == 1 && evRet[int]("select", 0, 0) == 1 && isRetryErr(result) ==>
